@@ -783,33 +783,62 @@ func c05Weight(r *core.Run, p *core.Program, rule string) {
 		r.Fail(rule, "weight/formula", "-", "BuildTxListExt not found")
 		return
 	}
-	strip := func(e string) string {
-		for _, c := range []string{"uint64(", "uint32(", "uint(", "int(", "int64("} {
-			e = strings.ReplaceAll(e, c, "(")
+	// values are compared as linear forms over their leaves: the way the source associates, orders or
+	// factors the sum does not matter
+	isBase := func(v ssa.Value) bool {
+		l := an.LinForm(v)
+		if len(l) != 2 || l[""] != 320 {
+			return false
 		}
-		return e
+		for a, k := range l {
+			if a != "" && !(k == 4 && strings.Contains(a, "lib/btc.VLenSize(") && strings.Contains(a, "param#0.TxCount")) {
+				return false
+			}
+		}
+		return true
 	}
-	const base = "(4 * (80 + (lib/btc.VLenSize((param#0.TxCount)))))"
+	// an increment is 3*T.NoWitSize + T.Size of one transaction T
+	isInc := func(l map[string]int64) bool {
+		if len(l) != 2 {
+			return false
+		}
+		var tn, ts string
+		for a, k := range l {
+			switch {
+			case k == 3 && strings.HasSuffix(a, ".NoWitSize"):
+				tn = strings.TrimSuffix(a, ".NoWitSize")
+			case k == 1 && strings.HasSuffix(a, ".Size"):
+				ts = strings.TrimSuffix(a, ".Size")
+			}
+		}
+		return tn != "" && tn == ts
+	}
 	var inits, incs, odd []string
 	accs := map[ssa.Value]bool{} // local accumulators copied into the field at the end
 	classify := func(v ssa.Value, self string, where string) {
-		e := strip(an.Expr(v))
-		switch {
-		case e == base:
+		if isBase(v) {
 			inits = append(inits, where)
-		case strings.HasPrefix(e, "("+self+" + "):
-			incs = append(incs, strings.TrimSuffix(strings.TrimPrefix(e, "("+self+" + "), ")"))
-		default:
-			if cv, ok := v.(*ssa.Convert); ok {
-				if ld, ok := cv.X.(*ssa.UnOp); ok && ld.Op == token.MUL {
-					if al, ok := ld.X.(*ssa.Alloc); ok {
-						accs[al] = true
-						return
-					}
+			return
+		}
+		l := an.LinForm(v)
+		if l[self] == 1 {
+			delete(l, self)
+			if isInc(l) {
+				incs = append(incs, where)
+			} else {
+				odd = append(odd, "increment "+an.LinString(l))
+			}
+			return
+		}
+		if cv, ok := v.(*ssa.Convert); ok {
+			if ld, ok := cv.X.(*ssa.UnOp); ok && ld.Op == token.MUL {
+				if al, ok := ld.X.(*ssa.Alloc); ok {
+					accs[al] = true
+					return
 				}
 			}
-			odd = append(odd, e)
 		}
+		odd = append(odd, an.LinString(l))
 	}
 	for _, f := range an.WithClosures(fn) {
 		an.Instrs(f, func(i ssa.Instruction) {
@@ -828,34 +857,28 @@ func c05Weight(r *core.Run, p *core.Program, rule string) {
 				switch x := i.(type) {
 				case *ssa.Store:
 					if x.Addr == al {
-						if e := strip(an.Expr(x.Val)); e == base {
+						if isBase(x.Val) {
 							inits = append(inits, p.Pos(x.Pos()))
 						} else {
-							odd = append(odd, e)
+							odd = append(odd, an.LinString(an.LinForm(x.Val)))
 						}
 					}
 				case *ssa.Call:
 					if strings.HasPrefix(an.CallName(x), "sync/atomic.Add") && len(x.Call.Args) == 2 {
 						a0 := x.Call.Args[0]
 						if a0 == al || strings.HasPrefix(an.Expr(a0), "free:") {
-							incs = append(incs, strip(an.Expr(x.Call.Args[1])))
+							if l := an.LinForm(x.Call.Args[1]); isInc(l) {
+								incs = append(incs, p.Pos(x.Pos()))
+							} else {
+								odd = append(odd, "increment "+an.LinString(l))
+							}
 						}
 					}
 				}
 			})
 		}
 	}
-	// every increment is 3*T.NoWitSize + T.Size of one transaction T
 	okInc := len(incs) >= 2
-	for _, e := range incs {
-		e = strings.TrimPrefix(strings.TrimSuffix(e, ")"), "(")
-		e = strings.TrimPrefix(strings.TrimSuffix(e, ")"), "(")
-		parts := strings.SplitN(e, ".NoWitSize) + ", 2)
-		if len(parts) != 2 || !strings.HasPrefix(parts[0], "(3 * ") || parts[1] != strings.TrimPrefix(parts[0], "(3 * ")+".Size" {
-			okInc = false
-			odd = append(odd, "increment "+e)
-		}
-	}
 	sort.Strings(odd)
 	r.Check(len(inits) == 2 && okInc && len(odd) == 0, rule, "weight/formula", p.Pos(fn.Pos()), fmt.Sprintf("both paths start from 4*(80+size of the count) and add 3*NoWitSize+Size per transaction (%d starts, %d increments)", len(inits), len(incs)), fmt.Sprintf("block weight: %d start value(s) equal to 4*(80+VLenSize(TxCount)) (2 expected), %d increment(s); other forms: %s", len(inits), len(incs), strings.Join(odd, " ; ")))
 }
